@@ -160,6 +160,9 @@ func refusedOutcome(comp string, x *c04Exec) bool {
 	if comp == "fallback(cb)" {
 		return x.res == -1 && x.err == nil
 	}
+	if comp == "timeout(cb)" && errors.Is(x.err, timeout.ErrExceeded) {
+		return true // on a stalled machine the outer 30ms Timeout may expire before the refusal travels back
+	}
 	return errors.Is(x.err, circuitbreaker.ErrOpen)
 }
 
